@@ -53,3 +53,30 @@ func verifSimplifyRemoved(idx int) {
 		VerifSimplifyHook(idx)
 	}
 }
+
+// Counter-factual switches for the join / self-intersection-repair findings.
+// verifJoinMode: 0 = unchanged, 1 = never join, 2 = join only edges that are exactly
+// collinear with each other (both end points of one edge on the line of the other).
+var (
+	verifJoinMode              int
+	verifSkipFixSelfIntersects bool
+)
+
+// VerifSetJoinMode selects the join counter-factual (see verifJoinMode).
+func VerifSetJoinMode(m int) { verifJoinMode = m }
+
+// VerifSetSkipFixSelfIntersects switches the self-intersection repair of closed output paths off.
+func VerifSetSkipFixSelfIntersects(on bool) { verifSkipFixSelfIntersects = on }
+
+func verifSkipJoin(e, other *Active, pt Point64, checkCurrX bool) bool {
+	switch verifJoinMode {
+	case 1:
+		return true
+	case 2:
+		if other == nil {
+			return false
+		}
+		return !(isCollinear(e.bot, e.top, other.top) && isCollinear(e.bot, e.top, other.bot))
+	}
+	return false
+}
